@@ -2,38 +2,42 @@
 """tools/tryharmless.py Cxx N : apply a behaviour-preserving change (/tmp/harmless/Cxx/out/hN.diff)
 to /repo, run tabula's tests and ./check Cxx (must stay quiet), undo it straight afterwards."""
 import json, os, subprocess, sys
+WS = os.environ.get("VERIF_WS", "/verif")
+REPO = os.environ.get("VERIF_REPO", "/repo")
+BASE = os.environ.get("HARMLESS_BASE", "/tmp/harmless")
+TAG = os.environ.get("HARMLESS_TAG", "")
 ENV = dict(os.environ, GOFLAGS="-mod=mod", GOPROXY="off", GOSUMDB="off", GOTOOLCHAIN="local")
 def sh(cmd, cwd=None, timeout=3600):
     r = subprocess.run(cmd, cwd=cwd, env=ENV, shell=isinstance(cmd, str), timeout=timeout, stdout=subprocess.PIPE, stderr=subprocess.STDOUT, text=True)
     return r.returncode, r.stdout
 prop, n = sys.argv[1], sys.argv[2]
-diff = "/tmp/harmless/%s/out/h%s.diff" % (prop, n)
+diff = "%s/%s/out/h%s.diff" % (BASE, prop, n)
 meta = json.load(open(diff.replace(".diff", ".json")))
-rc, out = sh(["git", "-C", "/repo", "status", "--short"])
+rc, out = sh(["git", "-C", REPO, "status", "--short"])
 if out.strip():
     print("/repo not clean"); sys.exit(2)
-res = {"property": prop, "change": "h" + n, "summary": meta.get("summary"), "kind": meta.get("kind")}
-evp = "/verif/evidence/%s.json" % prop
+res = {"property": prop, "change": TAG + "h" + n, "summary": meta.get("summary"), "kind": meta.get("kind")}
+evp = WS + "/evidence/%s.json" % prop
 evidence_backup = open(evp, "rb").read() if os.path.exists(evp) else None
 try:
-    rc, out = sh(["git", "-C", "/repo", "apply", diff])
+    rc, out = sh(["git", "-C", REPO, "apply", diff])
     res["applies"] = rc == 0
     if rc == 0:
-        rc, out = sh("go build ./... && go build -tags verif ./... && go test -vet=off -count=1 ./...", cwd="/repo")
+        rc, out = sh("go build ./... && go build -tags verif ./... && go test -vet=off -count=1 ./...", cwd=REPO)
         res["suite_green"] = rc == 0
-        rc, out = sh(["./check", prop], cwd="/verif")
+        rc, out = sh(["./check", prop], cwd=WS)
         res["check_rc"] = rc
         res["check_output"] = "\n".join(l[:300] for l in out.strip().splitlines() if not l.startswith("KNOWN-FINDING"))[-600:]
         res["quiet"] = rc == 0
-        if rc != 0 and os.path.exists("/verif/replay/%s-1.json" % prop):
-            r = json.load(open("/verif/replay/%s-1.json" % prop))
+        if rc != 0 and os.path.exists(WS + "/replay/%s-1.json" % prop):
+            r = json.load(open(WS + "/replay/%s-1.json" % prop))
             res["alarm"] = {k: (str(r.get(k))[:500]) for k in ("kind", "key", "detail", "payload")}
 finally:
-    sh(["git", "-C", "/repo", "checkout", "--", "."]); sh(["git", "-C", "/repo", "clean", "-fdq"])
+    sh(["git", "-C", REPO, "checkout", "--", "."]); sh(["git", "-C", REPO, "clean", "-fdq"])
     if evidence_backup is not None:
         open(evp, "wb").write(evidence_backup)  # the evidence file describes the unchanged tree
 os.makedirs("/verif/harmless", exist_ok=True)
-d = "/verif/harmless/%s-h%s" % (prop, n)
+d = "/verif/harmless/%s-%sh%s" % (prop, TAG, n)
 if res.get("applies") and res.get("suite_green"):
     os.makedirs(d, exist_ok=True)
     import shutil; shutil.copy(diff, d + "/patch.diff"); json.dump(res, open(d + "/meta.json", "w"), indent=1)
